@@ -17,10 +17,11 @@ vars == <<reg, doc, nf, what>>
 Q(n) == <<n % 256, (n \div 256) % 256, (n \div 65536) % 256, (n \div 16777216) % 256>>
 QMAX == <<255, 255, 255, 255>>
 Sa == <<97>>  Se == <<195, 169, 240, 159, 152, 128>>  Sq == <<34, 92, 10>>    \* "a", "e-acute + emoji", quote backslash newline
+S0 == <<>>                                                                       \* the empty string: present, not absent
 Fld(n, t, tn, d) == [name |-> n, ty |-> t, tn |-> tn, docs |-> d]
-Fields == {Fld(n, Q(1), tn, d) : n \in {<<>>, <<Sa>>}, tn \in {<<>>, <<Se>>}, d \in {<<>>, <<Sa, Sq>>}}
+Fields == {Fld(n, Q(1), tn, d) : n \in {<<>>, <<Sa>>, <<S0>>}, tn \in {<<>>, <<Se>>, <<S0>>}, d \in {<<>>, <<Sa, Sq>>, <<S0>>}}
 Var(n, fs, i, d) == [name |-> n, fields |-> fs, index |-> i, docs |-> d]
-Variants == {Var(Sa, fs, i, d) : fs \in {<<>>, <<Fld(<<>>, Q(0), <<>>, <<>>)>>}, i \in {0, 255}, d \in {<<>>, <<Se>>}}
+Variants == {Var(n, fs, i, d) : n \in {Sa, S0}, fs \in {<<>>, <<Fld(<<>>, Q(0), <<>>, <<>>)>>}, i \in {0, 255}, d \in {<<>>, <<Se>>, <<S0>>}}
 Defs == {[tag |-> "composite", fields |-> <<>>]} \cup {[tag |-> "composite", fields |-> <<f>>] : f \in Fields}
    \cup {[tag |-> "composite", fields |-> <<Fld(<<Sa>>, QMAX, <<>>, <<>>), Fld(<<Se>>, Q(65536), <<Sa>>, <<>>)>>]}
    \cup {[tag |-> "variant", variants |-> <<>>]} \cup {[tag |-> "variant", variants |-> <<v>>] : v \in Variants}
@@ -31,12 +32,12 @@ Defs == {[tag |-> "composite", fields |-> <<>>]} \cup {[tag |-> "composite", fie
    \cup {[tag |-> "primitive", prim |-> p] : p \in PrimNames}
    \cup {[tag |-> "compact", ty |-> Q(7)], [tag |-> "bitsequence", store |-> Q(1), order |-> Q(258)]}
 Prm(n, t) == [name |-> n, ty |-> t]
-ParamSets == {<<>>, <<Prm(Sa, <<>>)>>, <<Prm(Sa, <<Q(0)>>)>>, <<Prm(Se, <<QMAX>>), Prm(Sa, <<>>)>>}
-Paths == {<<>>, <<Sa>>, <<Sa, Se>>}
-DocSets == {<<>>, <<Sa>>, <<Se, <<>>, Sq>>}
+ParamSets == {<<>>, <<Prm(Sa, <<>>)>>, <<Prm(Sa, <<Q(0)>>)>>, <<Prm(Se, <<QMAX>>), Prm(Sa, <<>>)>>, <<Prm(S0, <<>>)>>, <<Prm(S0, <<Q(0)>>)>>}
+Paths == {<<>>, <<Sa>>, <<Sa, Se>>, <<S0>>, <<Sa, S0>>, <<S0, Sa>>, <<S0, S0>>}
+DocSets == {<<>>, <<Sa>>, <<Se, <<>>, Sq>>, <<S0>>}
 Ty(i, p, ps, d, dc) == [id |-> i, path |-> p, params |-> ps, def |-> d, docs |-> dc]
 D0 == [tag |-> "primitive", prim |-> "u8"]
-Regs ==    {<<Ty(Q(0), p, <<>>, d, dc)>> : d \in Defs, p \in {<<>>, <<Sa>>}, dc \in {<<>>, <<Sa>>}}
+Regs ==    {<<Ty(Q(0), p, <<>>, d, dc)>> : d \in Defs, p \in {<<>>, <<Sa>>, <<S0>>}, dc \in {<<>>, <<Sa>>}}
       \cup {<<Ty(i, p, ps, D0, dc)>> : i \in {Q(0), Q(65536), QMAX}, p \in Paths, ps \in ParamSets, dc \in DocSets}
       \cup {<<>>, <<Ty(Q(1), <<>>, <<>>, D0, <<>>), Ty(Q(0), <<Sa>>, <<>>, [tag |-> "sequence", ty |-> Q(1)], <<>>)>>}
 RegList == SetToSeq(Regs)
